@@ -13,19 +13,89 @@ from xdeps.tasks import ExprTask, FunctionTask, LinearKnob
 from xdeps.refs import Ref, ItemRef, AttrRef, BaseRef, is_cythonized
 
 # ---------------------------------------------------------------- fault injection
-FAULT = {"n": None}
+FAULT = {"n": None, "kind": "Fault"}
 
 
-class InjectedFault(Exception):
+class Injected:
+    """marks every injected exception, whatever class it derives from"""
+
+
+class InjectedFault(Injected, Exception):
     pass
+
+
+class BaseFault(Injected, BaseException):
+    pass
+
+
+_KINDS = {"Fault": InjectedFault, "BaseFault": BaseFault}
+
+
+def fault_class(kind):
+    if kind not in _KINDS:
+        import builtins
+        _KINDS[kind] = type("Injected" + kind, (Injected, getattr(builtins, kind)), {})
+    return _KINDS[kind]
 
 
 def _tick():
     n = FAULT["n"]
     if n is not None:
         if n == 0:
-            raise InjectedFault("injected container write fault")
+            raise fault_class(FAULT["kind"])("injected container write fault")
         FAULT["n"] = n - 1
+
+
+# ---------------------------------------------------------------- keys
+# plain str / int keys travel as they are; other key types in a tagged string encoding
+class K(__import__("enum").IntEnum):
+    A = 6
+    B = 7
+    C = 8
+
+
+def dk(k):
+    if isinstance(k, str) and k[:1] == "\x01":
+        tag, _, v = k[1:].partition(":")
+        if tag == "np":
+            import numpy as np
+            return np.int64(int(v))
+        if tag == "np8":
+            import numpy as np
+            return np.int8(int(v))
+        if tag == "enum":
+            return K(int(v))
+        if tag == "f":
+            return float(v)
+        if tag == "tup":
+            return tuple(json.loads(v))
+        if tag == "none":
+            return None
+        if tag == "bool":
+            return bool(int(v))
+        raise ValueError("bad key encoding " + repr(k))
+    return k
+
+
+def ek(k):
+    if isinstance(k, bool):
+        return "\x01bool:%d" % k
+    if isinstance(k, K):
+        return "\x01enum:%d" % int(k)
+    if isinstance(k, (str, int)):
+        return k
+    if k is None:
+        return "\x01none"
+    if isinstance(k, float):
+        return "\x01f:" + repr(k)
+    if isinstance(k, tuple):
+        return "\x01tup:" + json.dumps(list(k))
+    tn = type(k).__name__
+    if tn == "int64":
+        return "\x01np:%d" % int(k)
+    if tn == "int8":
+        return "\x01np8:%d" % int(k)
+    return "\x01other:" + tn + ":" + repr(k)
 
 
 class FDict(dict):
@@ -69,7 +139,7 @@ def build(spec):
     if kind == "dict":
         d = FDict()
         for k, v in spec["items"]:
-            dict.__setitem__(d, k, build(v))
+            dict.__setitem__(d, dk(k), build(v))
         return d
     if kind == "list":
         return FList([build(v) for _, v in spec["items"]])
@@ -88,7 +158,7 @@ def build(spec):
 def flatten(obj, pre, out):
     if isinstance(obj, dict):
         for k, v in obj.items():
-            flatten(v, pre + [k], out)
+            flatten(v, pre + [ek(k)], out)
     elif isinstance(obj, list):
         for i, v in enumerate(obj):
             flatten(v, pre + [i], out)
@@ -105,7 +175,7 @@ def flatten(obj, pre, out):
 def mkref(roots, path):
     r = roots[path[0]]
     for kind, key in path[1:]:
-        r = r[key] if kind == "i" else getattr(r, key)
+        r = r[dk(key)] if kind == "i" else getattr(r, key)
     return r
 
 
@@ -113,7 +183,7 @@ def ref_path(r):
     steps = []
     while not isinstance(r, Ref):
         if isinstance(r, ItemRef):
-            steps.append(r._key)
+            steps.append(ek(r._key))
         elif isinstance(r, AttrRef):
             steps.append(r._key)
         else:
@@ -175,7 +245,7 @@ xt.toposort = _toposort
 
 
 def exc_name(e):
-    if isinstance(e, InjectedFault):
+    if isinstance(e, Injected) or isinstance(e.__cause__, Injected) or isinstance(e.__context__, Injected):
         return "Fault"
     for cls in (KeyError, IndexError, AttributeError, TypeError, ValueError, RecursionError, ZeroDivisionError):
         if isinstance(e, cls):
@@ -432,6 +502,8 @@ def pickle_check(m, roots_data, followups):
         return {"problems": [f"pickle round trip raised {type(e).__name__}: {e}"[:200]]}
     if m2.dump() != m.dump():
         problems.append("dump() differs")
+    if bool(m2._tree_frozen) != bool(m._tree_frozen):
+        problems.append(f"frozen state differs: original {m._tree_frozen!r}, restored {m2._tree_frozen!r}")
     c1, c2 = counts(m), counts(m2)
     if c1 != c2:
         diff = [(n, k, c1[n].get(k), c2[n].get(k)) for n in c1 for k in set(c1[n]) | set(c2[n]) if c1[n].get(k) != c2[n].get(k)]
@@ -480,6 +552,8 @@ def fresh_check(m, roots, roots_data, leaves, followups):
     m2 = xd.Manager()
     roots2 = {label: m2.ref(d, label) for label, d in data2.items()}
     m2.load(m.dump())
+    if m._tree_frozen:
+        m2.freeze_tree()          # the fresh manager is put in the same frozen state
     res = {"queries": [], "followup": [], "cycle": False}
     try:
         m.verify(); m2.verify()
@@ -551,6 +625,7 @@ def run_case(case, opts):
                 obs["sd_order"] = [ref_path(x) for x in sd_refs]
                 owner = mkref(roots, op[1][:-1])
                 k, key = op[1][-1]
+                key = dk(key) if k == "i" else key
                 sym, val = op[2], op[3]
                 if k == "i":
                     if sym == "+":
@@ -608,13 +683,14 @@ def run_case(case, opts):
                 obs["fresh"] = fresh_check(m, roots, roots_data, op[1], op[2])
             elif kind == "arm":
                 FAULT["n"] = op[1]
+                FAULT["kind"] = op[2] if len(op) > 2 else "Fault"
             elif kind == "disarm":
                 FAULT["n"] = None
             else:
                 raise RuntimeError("unknown op " + kind)
-        except RecursionError:
-            obs["err"] = "RecursionError"
-        except Exception as e:
+        except BaseException as e:
+            if not isinstance(e, (Exception, Injected)):
+                raise
             obs["err"] = exc_name(e)
         saved = FAULT["n"]
         FAULT["n"] = None
